@@ -313,6 +313,21 @@ def replay(pid: str, module, data: dict) -> int:
     return 1
 
 
+def _guarded_run(module, ctx) -> "Report":
+    """an exception that escapes a property's run (the implementation raised where the harness has no handler, or the
+    harness itself is at fault) must not end the check with a stack trace: it is recorded as a broken correspondence, so
+    that the verdict logic (failing-input search, VIOLATION ... no-failing-input-found, evidence) still applies"""
+    try:
+        return module.run(ctx)
+    except Infra:
+        raise
+    except Exception as exc:  # noqa: BLE001
+        rep = Report(ctx.pid)
+        rep.rule = "run aborted"
+        rep.disagree(f"run-aborted {type(exc).__name__}: {exc}"[:200], "-", traceback.format_exc()[-3000:], None)
+        return rep
+
+
 def check(pid: str, tier: str, seed: int, module, level_text: str) -> int:
     t0 = time.time()
     log: list[str] = []
@@ -335,7 +350,7 @@ def check(pid: str, tier: str, seed: int, module, level_text: str) -> int:
             log.append("leanchecker FAILED:\n" + q.stdout[-2000:])
     # --- 2. correspondence + oracle
     ctx = Ctx(pid, tier, seed)
-    rep = module.run(ctx)
+    rep = _guarded_run(module, ctx)
     known = [k for k in load_known() if k.get("property") == pid and k.get("kind") == "known"]
     known_sigs = {k["signature"]: k for k in known}
     unknown = [v for v in rep.violations if v["signature"] not in known_sigs]
@@ -361,7 +376,7 @@ def check(pid: str, tier: str, seed: int, module, level_text: str) -> int:
         while time.time() < tend and not unknown and k < 8:
             k += 1
             sctx = Ctx(pid, tier, seed * 1000 + k, scale=4.0)
-            srep = module.run(sctx)
+            srep = _guarded_run(module, sctx)
             searched += srep.evaluations
             rep.dist.update({"search:" + a: b for a, b in srep.dist.items() if a.startswith("VIOLATION")})
             unknown = [v for v in srep.violations if v["signature"] not in known_sigs]
